@@ -22,15 +22,16 @@ OWNED = [
     (r"add_pulse/ensures\.after-phase-barriers", ["C07", "C03"]),
     (r"ensures\.within-max-sequence-duration", ["C01"]),
     (r"_check_duration/", ["C01"]),
-    (r"ensures\.INV\.(len>=0|first-is-initial-target|kinds|contiguous|monotone|boundaries-nonneg|clock-aligned|pulse-occupies-its-duration|min-duration|targets-change-only-at-target-slots)", ["C02"]),
+    (r"ensures\.INV\.(len>=0|first-is-initial-target|kinds|contiguous|monotone|boundaries-nonneg|clock-aligned|pulse-occupies-its-duration|pulses-are-valid|min-duration|targets-change-only-at-target-slots)", ["C02"]),
     (r"ensures\.(append-only|assert:bridge)", ["C02"]),
 ]
 
 PROPS = {
     "C01": dict(lemmas=["A-mod-of-multiple"], not_decided=["hull of stretched Blackman/Kaiser/Interpolated samples (bounded stand-in)"], assumptions=[]),
     "C02": dict(lemmas=["A-mod-of-multiple"], not_decided=[], assumptions=["A-NOALIAS list-valued fields (.slots, .eom_blocks) are not aliased between objects"]),
-    "C03": dict(lemmas=["L-first-retarget"], not_decided=["fall time of a past pulse is taken in the other channel's current EOM mode or non-EOM mode, whichever is shorter (fall_min)"],
-                assumptions=["A-EOMBW EOM rise time <= channel rise time", "A-DICT-ORDER iteration order of the schedule is unconstrained"]),
+    "C03": dict(lemmas=["L-first-retarget"], relations=["estimate-equals-actual"], not_decided=["fall time of a past pulse is taken in the other channel's current EOM mode or non-EOM mode, whichever is shorter (fall_min)"],
+                assumptions=["A-DET make_next_pulse_slot is a deterministic function of the values it reads (used only to turn equal call arguments into estimate == inserted delay)",
+                             "A-EOMBW EOM rise time <= channel rise time", "A-DICT-ORDER iteration order of the schedule is unconstrained"]),
     "C07": dict(lemmas=["L-phase-additive"], not_decided=["rotation by phi about z on the emulated qubit (QuTiP ODE)", "EOM drift-corrected adds: phase clauses are stated for drift-free adds"],
                 assumptions=["A-PI 3 < pi < 4 (only positivity is used)", "SLM-mask DMM side effect of _add is excluded by precondition (no pending SLM mask DMM)"]),
     "C13": dict(lemmas=[], not_decided=["acceptance direction (mode allows => returns) beyond the guards", "declare_channel / config_slm_mask typestate (bounded stand-in only)"],
